@@ -213,6 +213,15 @@ def execute(case, stats):
             ok = key in allowed
         check(ok, "names:wrong_name", f"index {idx} type {typ} named {key!r}, allowed {allowed or 'BeaconSetting_%d' % idx}")
     eq(list(views["settings"].keys()), name_keys, "views:name_keys_differ", "keys of settings vs raw_settings")
+    # the name-indexed views use the very names of the enum-indexed view's keys and of the decoded records (aliased
+    # indices 16, 17, 48 have two names: every view must pick the same one)
+    enum_names = [getattr(k, "name", None) for k in maps[("enum", False, False)].keys()]
+    enum_names = [n if n is not None else nk for n, nk in zip(enum_names, name_keys)]  # unknown indices: no member name
+    eq(name_keys, enum_names, "views:name_vs_enum_name", f"name-indexed keys vs names of the enum-indexed keys (indices {order})")
+    first_rec_names = {}
+    for s_ in st_:
+        first_rec_names.setdefault(s_.index.value, s_.index.name)
+    eq(name_keys, [first_rec_names[i] if first_rec_names[i] is not None else nk for i, nk in zip(order, name_keys)], "views:name_vs_record_name", f"name-indexed keys vs Setting.index.name of the decoded records (indices {order})")
     eq(list(views["raw_settings_by_index"].keys()), order, "views:const_order", "raw_settings_by_index key order")
     eq(list(views["settings_by_index"].keys()), order, "views:const_order_pretty", "settings_by_index key order")
     for (it, pretty, parse), m in maps.items():
